@@ -4,7 +4,7 @@ openapi3filter.ValidateParameter (validate_request.go), plus the specification s
 (the OpenAPI style table as an *encoder*, strict primitive texts, a declarative `Sat`).
 
 Modelled branch by branch (Go names in the comments of each definition):
-  parsePrimitive / parsePrimitiveCase (strconv.ParseInt base 0 incl. sign, 0x/0o/0b/0 prefixes and the range
+  parsePrimitive / parsePrimitiveCase (strconv.ParseInt base 10 incl. sign and the range
   check; strconv.ParseBool's literal set; the decimal grammar of strconv.ParseFloat), parseArray,
   cutPrefix, strings.Split, propsFromString, makeObject/buildResObj for flat objects (properties and
   additionalProperties schema), the four location decoders (pathParamDecoder, urlValuesDecoder,
@@ -12,7 +12,7 @@ Modelled branch by branch (Go names in the comments of each definition):
   (primitive and array-valued properties), decodeValue's allOf / anyOf / oneOf loops (typed-nil maps are an
   explicit value `nilObj`), ValidateParameter's presence / emptiness / schema decision.
 Abstracted (trusted, tied by the differential run): float64 rounding of number texts (the model keeps the
-  exact decimal mantissa/exponent), `_` digit separators, "inf"/"nan"/hex floats (never generated),
+  exact decimal mantissa/exponent), `_` digit separators in number texts, "inf"/"nan"/hex floats (never generated),
   net/url, net/http cookie and header plumbing, Go map iteration order (results are compared as maps).
 Everything is `List Char`; all recursion is structural, so `decide`/`rfl` evaluate concrete witnesses.
 -/
@@ -92,29 +92,23 @@ def readBase (base : Nat) : Str → Nat → Option Nat
 
 def lowerEq (c : Char) (l : Char) : Bool := c = l || c.toNat + 32 = l.toNat
 
-/-- strconv.ParseUint(s, 0, _) without the range check (the caller checks the range); `_` separators are
-not modelled (syntax error here, never generated). -/
-def parseUint0 : Str → Option Nat
+/-- strconv.ParseUint(s, 10, _) without the range check (the caller checks the range): every byte must have a
+digit value below ten — letters have the values 10..35, `_` is only a separator for base 0, so both are syntax errors -/
+def parseUint10 : Str → Option Nat
   | [] => none
-  | '0' :: c :: r :: rest =>
-    if lowerEq c 'b' then readBase 2 (r :: rest) 0
-    else if lowerEq c 'o' then readBase 8 (r :: rest) 0
-    else if lowerEq c 'x' then readBase 16 (r :: rest) 0
-    else readBase 8 (c :: r :: rest) 0
-  | '0' :: rest => readBase 8 rest 0
   | s => readBase 10 s 0
 
-/-- strconv.ParseInt(s, 0, bits): optional sign, ParseUint, range check -/
-def parseInt0 (bits : Nat) (s : Str) : Option Int :=
+/-- strconv.ParseInt(s, 10, bits): optional sign, ParseUint, range check -/
+def parseInt10 (bits : Nat) (s : Str) : Option Int :=
   match s with
   | [] => none
-  | '+' :: r => match parseUint0 r with
+  | '+' :: r => match parseUint10 r with
     | none => none
     | some n => if n < 2 ^ (bits - 1) then some (Int.ofNat n) else none
-  | '-' :: r => match parseUint0 r with
+  | '-' :: r => match parseUint10 r with
     | none => none
     | some n => if n ≤ 2 ^ (bits - 1) then some (- Int.ofNat n) else none
-  | r => match parseUint0 r with
+  | r => match parseUint10 r with
     | none => none
     | some n => if n < 2 ^ (bits - 1) then some (Int.ofNat n) else none
 
@@ -212,8 +206,8 @@ def optPR : Option PV → PR
 def parsePrim (t : PT) (s : Str) : PR :=
   if s = [] then .nil else
   match t with
-  | .integer => optPR ((parseInt0 64 s).map PV.int)
-  | .int32 => optPR ((parseInt0 32 s).map PV.int32)
+  | .integer => optPR ((parseInt10 64 s).map PV.int)
+  | .int32 => optPR ((parseInt10 32 s).map PV.int32)
   | .number => optPR ((parseDec s).map (fun (m, e) => PV.num m e))
   | .boolean => optPR ((parseBoolText s).map PV.bool)
   | .string => .val (.str s)
@@ -1121,15 +1115,6 @@ def leafQueryObjAbsent (r : Req) : Leaf → Bool
 def QueryObjAbsent (p : Param) (r : Req) : Bool :=
   p.cell.loc = .query && p.cell.style = .form && p.cell.explode && !r.query.isEmpty &&
   (schLeaves p.schema).any (leafQueryObjAbsent r)
-
-/-- integer text that is not plain decimal (sign, then a leading `0` followed by more characters): the code
-reads it with base 0 -/
-def nonDecimalIntText (s : Str) : Bool :=
-  match s with
-  | '+' :: '0' :: _ :: _ => true
-  | '-' :: '0' :: _ :: _ => true
-  | '0' :: _ :: _ => true
-  | _ => false
 
 /-! ## Encodable: the injectivity domain of the specification's encoding -/
 
